@@ -12,6 +12,7 @@ from fractions import Fraction
 
 from . import llparse as L
 from . import sym as S
+from . import fpsym as FS
 
 Node = S.Node
 sys.setrecursionlimit(200000)
@@ -192,6 +193,13 @@ class Interp:
                     continue
                 # symbolic value partially read
                 if o == off and cs == size: return c[1]
+                v = c[1]
+                if type(v) is Node and v.sort == 'I' and o <= off and off + size <= o + cs:
+                    # a field of a packed symbolic word: (v >> shift) mod 2^(8*size)
+                    shift = 8 * (off - o)
+                    w = v.width
+                    x = S.iudiv(v, S.iconst(1 << shift, w), w) if shift else v
+                    return S.itrunc(x, 8 * size)
                 raise Unsupported('partial read of a symbolic cell at %s' % self.where())
             for j in range(cs):
                 p = o + j - off
@@ -831,6 +839,18 @@ class Interp:
             return S.iurem(a, S.iconst(b.args[0] + 1, bits), bits)
         if op == 4 and a.hi is not None and a.hi < (1 << (bits - 1)) and b.op == 'iconst' and b.args[0] < (1 << (bits - 1)):
             return S.iudiv(a, b, bits)
+        if op == 8 or op == 9:
+            # or / xor of values with disjoint bit ranges (packing of two fields into one word) = addition
+            def tz(n):
+                if n.op == 'iconst': return (n.args[0] & -n.args[0]).bit_length() - 1 if n.args[0] else bits
+                if n.op == 'imul':
+                    return tz(n.args[0]) + tz(n.args[1])
+                if n.op in ('imod', 'irew'): return tz(n.args[0])
+                return 0
+            for x, y in ((a, b), (b, a)):
+                k = tz(y)
+                if k and x.hi is not None and x.hi < (1 << k):
+                    return S.iadd(x, y, bits)
         # fall back: concretize both
         a = self.concretize_int(a); b = self.concretize_int(b)
         return self.bin_concrete(op, a, b, bits)
@@ -887,6 +907,10 @@ class Interp:
         return self.fbin_sym(op, a, b)
 
     def fbin_sym(self, op, a, b):
+        if self.mode == 'fp':
+            if type(a) is int or type(b) is int:
+                raise Unsupported('fp op on integer value')
+            return (FS.fadd, FS.fsub, FS.fmul, FS.fdiv)[op](a, b) if op < 4 else self._unsupported('frem on symbolic')
         # infinities: keep concrete where the result is determined
         if type(a) is float and (a != a or a in (math.inf, -math.inf)) or type(b) is float and (b != b or b in (math.inf, -math.inf)):
             raise Unsupported('arithmetic between a symbolic real and a non-finite constant at %s' % self.where())
@@ -923,6 +947,8 @@ class Interp:
             if pred == 'false': return 0
             raise Unsupported('fcmp ' + pred)
         if a is UNDEF or b is UNDEF: return UNDEF
+        if self.mode == 'fp':
+            return FS.fcmp(pred, a, b)
         # symbolic real vs possibly infinite constant
         for x, y, flip in ((a, b, False), (b, a, True)):
             if type(y) is float and (y in (math.inf, -math.inf)):
@@ -943,6 +969,9 @@ class Interp:
         if pred == 'ord' or pred == 'true': return 1
         if pred == 'uno' or pred == 'false': return 0
         raise Unsupported('fcmp %s on symbolic' % pred)
+
+    def _unsupported(self, msg):
+        raise Unsupported(msg)
 
     def cast(self, op, v, fb, tb):
         t = type(v)
@@ -977,6 +1006,8 @@ class Interp:
             if t is int:
                 r = float(v)
                 return round_f32(r) if tb == 32 else r
+            if t is Node and self.mode == 'fp' and v.sort == 'I':
+                return FS.u2f(v, False)
             if t is Node:
                 if v.sort == 'B': return S.ite(v, S.ONE, S.ZERO)
                 return S.i2r(v)
@@ -987,6 +1018,8 @@ class Interp:
                 iv = int(v)
                 if op == 'fptoui' and (iv < 0 or iv >= (1 << tb)): return UNDEF
                 return iv & ((1 << tb) - 1)
+            if t is Node and self.mode == 'fp':
+                return FS.f2u(v, tb, op == 'fptosi')
             if t is Node:
                 if self.pathctl is not None:
                     self.pathctl.note_fptoint(v, op, tb, self)
@@ -1184,6 +1217,7 @@ class Interp:
                     v = regs[ins[2]]
                     if type(v) is float: regs[ins[1]] = -v
                     elif v is UNDEF: regs[ins[1]] = UNDEF
+                    elif self.mode == 'fp': regs[ins[1]] = FS.fneg(v)
                     else: regs[ins[1]] = S.neg(v)
                 elif op == O_FREEZE:
                     regs[ins[1]] = regs[ins[2]]
@@ -1256,6 +1290,10 @@ class Interp:
         if type(a) is int and type(b) is int and a == b: return a
         if type(c) is Node and c.sort == 'I':
             c = S.cmp('ne', c, S.iconst(0, c.width))
+        if (kind == K_DOUBLE or kind == K_FLOAT) and self.mode == 'fp':
+            if a is UNDEF or b is UNDEF:
+                return a if self.decide(c) else b
+            return FS.fite(c, a, b)
         if kind == K_DOUBLE or kind == K_FLOAT:
             if a is UNDEF or b is UNDEF:
                 return a if self.decide(c) else b
